@@ -52,7 +52,7 @@ func (w *World) createIterator(t *simcore.Task, wt *WTxn, ti int) bool {
 		w.violate("C07", "changes-error", "Changes(%s) in T%d: %v", tc.M.Name, wt.id, err)
 		return false
 	}
-	ic := &IterCtx{id: len(w.iters) + len(wt.newIters) + wt.id*100, it: it, ti: ti, createRev: st.Rev, view: map[string]MObj{}, delSeen: map[string][]uint64{}, refIdx: wt.base[ti].Idx}
+	ic := &IterCtx{id: len(w.iters) + len(wt.newIters) + wt.id*100, it: it, ti: ti, createRev: st.Rev, view: map[string]MObj{}, delSeen: map[string][]uint64{}, refIdx: wt.base[ti].Idx, lastIdx: wt.base[ti].Idx}
 	st.Trackers++
 	wt.newIters = append(wt.newIters, ic)
 	w.allIters = append(w.allIters, ic)
@@ -267,6 +267,7 @@ func (w *World) consumerTask(t *simcore.Task) {
 	rounds := c.Range(p.NextsMin, p.NextsMax)
 	var ic *IterCtx
 	var open *WTxn
+	var lastSnap *Snap
 	defer func() {
 		if open != nil && !open.finished && open.txn != nil {
 			func() {
@@ -282,6 +283,7 @@ func (w *World) consumerTask(t *simcore.Task) {
 		}
 		if ic == nil || ic.closed {
 			ic = nil
+			lastSnap = nil
 			for _, x := range w.iters {
 				if x.live && !x.owned && !x.closed {
 					ic = x
@@ -330,7 +332,15 @@ func (w *World) consumerTask(t *simcore.Task) {
 		}
 		var openCh <-chan struct{}
 		var ok bool
-		switch kind := c.Weighted([]int{5, 2, 2, 1}); kind {
+		switch kind := c.Weighted([]int{5, 2, 2, 1, 2}); kind {
+		case 4: // a retained snapshot: the one passed last time, although the table may have moved on since
+			if lastSnap == nil || ic.ti >= len(lastSnap.states) || lastSnap.states[ic.ti] == nil || lastSnap.states[ic.ti].Idx < ic.lastIdx {
+				continue
+			}
+			if lastSnap.states[ic.ti] != tc.M.last() {
+				w.probe("next-with-retained-older-snapshot")
+			}
+			openCh, ok = w.nextOn(ic, lastSnap.txn, lastSnap.states[ic.ti], limit, "retained ReadTxn")
 		case 0: // fresh read transaction
 			rtxn := w.db.ReadTxn()
 			sn := w.bind(rtxn, "consumer snapshot", nil)
@@ -340,6 +350,7 @@ func (w *World) consumerTask(t *simcore.Task) {
 			if ic.ti >= len(sn.states) || sn.states[ic.ti] == nil {
 				continue
 			}
+			lastSnap = sn
 			openCh, ok = w.nextOn(ic, rtxn, sn.states[ic.ti], limit, "ReadTxn")
 		case 1: // write transaction holding the observed table, with uncommitted writes
 			wt := w.beginWrite(t, []int{ic.ti})
